@@ -147,7 +147,7 @@ def body_override(cn: bool, ct: int, cnum: bool, cab: bool, ln: bool, lt: int, l
     from pygopherd.handlers import UMN
 
     cfg = dl.config({("handlers.UMN.UMNDirHandler", "extstrip"): "none"})
-    capb = _mkblock("Cap name" if cn else None, TYPES[ct], 3 if cnum else None, "cap abstract" if cab else None, False)
+    capb = _mkblock("Cap name" if cn else None, TYPES[ct], -3 if cnum else None, "cap abstract" if cab else None, False)
     lnkb = _mkblock("Link name" if ln else None, TYPES[lt], -2 if lnum else None, "link abstract" if lab else None, lhp, path="./a.txt")
     links = [l + "\n" for l in lnkb]
     added = ["Name=Added", "Type=1", "Path=/added", "Host=+", "Port=+", "Numb=1"]
